@@ -723,6 +723,30 @@ def _embed(psi_good: np.ndarray, bad: tuple, n: int) -> np.ndarray:
     return full
 
 
+def _embed_dm(rho_good: np.ndarray, bad: tuple, n: int) -> np.ndarray:
+    """Density matrix of all atoms: the badly prepared ones stay in |g><g|."""
+    good = [i for i in range(n) if not bad[i]]
+    pos = {}
+    for idx in range(2**n):
+        digits = [int(c) for c in np.binary_repr(idx, width=n)]
+        if all(digits[i] == 1 for i in range(n) if bad[i]):
+            pos[idx] = int("".join(str(digits[i]) for i in good), 2) if good else 0
+    full = np.zeros((2**n, 2**n), dtype=complex)
+    for a, sa in pos.items():
+        for b, sb in pos.items():
+            full[a, b] = rho_good[sa, sb]
+    return full
+
+
+def _as_dm(q) -> np.ndarray:
+    m = q.full()
+    return m if q.isoper else m @ m.conj().T
+
+
+DISSIPATIVE = ("dephasing_rate", "relaxation_rate")      # leave a dark atom in |g> untouched
+RANDOM_NOISE = ("temperature", "amp_sigma")
+
+
 def run_stateprep(drv, case) -> Outcome:
     import collections
 
@@ -751,7 +775,7 @@ def run_stateprep(drv, case) -> Outcome:
         with _RecordUniform(n) as rec:
             for cr, reps in emu._noisy_runs(progress_bar=False, **opts):
                 bad = tuple(bool(emu._hamiltonian._bad_atoms[q]) for q in qids)
-                yielded.append((bad, int(reps), cr.states[-1].full().flatten()))
+                yielded.append((bad, int(reps), _as_dm(cr.states[-1])))
         drawn = [tuple(bool(x) for x in (d < eta)) for d in rec.draws]
         # model: draw -> string -> bad atoms (PulserModel/Measure.lean §3b)
         for d in rec.draws[:8]:
@@ -776,7 +800,26 @@ def run_stateprep(drv, case) -> Outcome:
                      f"eta={eta}: configurations drawn {out.detail['drawn']} but the runs were made with bad atoms "
                      f"{out.detail['loaded']}", what=what)
             return out
-        if extra_noise:
+        random_extra = any(k in extra_noise for k in RANDOM_NOISE)
+        dissipative = {k: v for k, v in extra_noise.items() if k in DISSIPATIVE}
+
+        def physical(dm, what, t):
+            ev = np.linalg.eigvalsh((dm + dm.conj().T) / 2)
+            out.evaluations += 1
+            if abs(np.trace(dm) - 1) > 2e-5 or np.max(np.abs(dm - dm.conj().T)) > 1e-8 or ev.min() < -1e-6:
+                out.fail("density-matrix-physical",
+                         f"{what} at t={t}: trace {np.trace(dm).real:.6f}, hermiticity "
+                         f"{np.max(np.abs(dm - dm.conj().T)):.2g}, min eig {ev.min():.2g} "
+                         f"(eta={eta}, runs={runs}, noise {sorted(extra_noise) or 'state preparation only'})",
+                         source="v2-noisy-average")
+
+        if random_extra:
+            # doppler / amplitude noise: every run is random, only the physicality of the V2 average is decided
+            np.random.seed(int(case["npseed"]) + 1)
+            res = QutipBackendV2(seq, config=QutipConfig(
+                observables=[StateResult(evaluation_times=[0.5, 1.0])], noise_model=nm)).run()
+            for t, st in zip(res.get_result_times("state"), res.state):
+                physical(_as_dm(st.to_qobj()), "V2 averaged density matrix", t)
             return out
         # ---- (b) each run evolves the well-prepared atoms only; the others stay in |g> ----
         ref = {}
@@ -785,34 +828,38 @@ def run_stateprep(drv, case) -> Outcome:
             if bad not in ref:
                 good = [i for i in range(n) if not bad[i]]
                 if not good:
-                    psi = np.ones(1, dtype=complex)
+                    rho = np.ones((1, 1), dtype=complex)
                 else:
                     sub = dict(spec, n=len(good), coords=[list(coords[i]) for i in good])
-                    e2 = QutipEmulator.from_sequence(build_sequence(sub))
-                    psi = e2.run().states[-1].full().flatten()
-                ref[bad] = _embed(psi, bad, n)
+                    cfg2 = SimConfig.from_noise_model(NoiseModel(**dissipative)) if dissipative else None
+                    e2 = QutipEmulator.from_sequence(build_sequence(sub), config=cfg2)
+                    rho = _as_dm(e2.run().states[-1])
+                ref[bad] = _embed_dm(rho, bad, n)
             return ref[bad]
 
-        for bad, reps, psi in yielded:
+        for bad, reps, rho_run in yielded:
             out.evaluations += 1
             r = reference(bad)
-            if np.max(np.abs(psi - r)) > 2e-4:      # integrator tolerance; a wrong dark set is O(0.1)
+            if np.max(np.abs(rho_run - r)) > 2e-4:      # integrator tolerance; a wrong dark set is O(0.1)
                 out.fail("state-prep-dark-atoms",
                          f"run with bad atoms {bad}: final state differs from 'bad atoms idle in |g>' by "
-                         f"{np.max(np.abs(psi - r)):.3g}")
+                         f"{np.max(np.abs(rho_run - r)):.3g}")
                 return out
         # ---- (c) the averaged results are the mixture over the drawn configurations ----
         np.random.seed(int(case["npseed"]) + 1)
-        backend = QutipBackendV2(seq, config=QutipConfig(observables=[StateResult()], noise_model=nm))
+        backend = QutipBackendV2(seq, config=QutipConfig(
+            observables=[StateResult(evaluation_times=[0.5, 1.0])], noise_model=nm))
         with _RecordUniform(n) as rec2:
             res = backend.run()
+        # unit trace / Hermitian / positive: the average over runs must weight every run by its repetitions
+        for t, st in zip(res.get_result_times("state"), res.state):
+            physical(_as_dm(st.to_qobj()), "V2 averaged density matrix", t)
         out.evaluations += 1
         if len(rec2.draws) == runs:
             mix = np.zeros((2**n, 2**n), dtype=complex)
             for d in rec2.draws:
-                v = reference(tuple(bool(x) for x in (d < eta)))
-                mix += np.outer(v, v.conj()) / runs
-            dm = res.state[-1].to_qobj().full()
+                mix += reference(tuple(bool(x) for x in (d < eta))) / runs
+            dm = _as_dm(res.state[-1].to_qobj())
             if np.max(np.abs(dm - mix)) > 2e-4:
                 out.fail("state-prep-mixture",
                          f"V2 density matrix differs from the mixture over the drawn configurations by "
@@ -828,8 +875,8 @@ def run_stateprep(drv, case) -> Outcome:
         if len(rec3.draws) == runs and hasattr(noisy[-1], "bitstring_counts"):
             dist = collections.Counter()
             for d in rec3.draws:
-                v = reference(tuple(bool(x) for x in (d < eta)))
-                for idx, p in enumerate(np.abs(v) ** 2):
+                rho_c = reference(tuple(bool(x) for x in (d < eta)))
+                for idx, p in enumerate(np.real(np.diag(rho_c))):
                     if p > 1e-12:
                         # r (first basis vector) reads 1
                         dist["".join("1" if c == "0" else "0" for c in np.binary_repr(idx, width=n))] += p / runs
@@ -852,8 +899,13 @@ def gen_stateprep(rng) -> dict:
     case = dict(kind="stateprep", seq=dict(n=n, spacing=rng.choice([7.0, 30.0]), segments=segs),
                 eta=rng.choice(["1/10", "3/10", "1/2", "9/10", "1"]), runs=rng.choice([4, 8, 16]),
                 samples_per_run=rng.choice([5, 25]), npseed=rng.randint(0, 10**6))
-    if rng.random() < 0.2:
+    r = rng.random()
+    if r < 0.15:
         case["extra_noise"] = rng.choice([dict(temperature=50.0), dict(amp_sigma=0.1, laser_waist=100.0)])
+    elif r < 0.55:
+        # dissipative noise: every run yields a density matrix, identical configurations are grouped (reps > 1)
+        case["extra_noise"] = rng.choice([dict(dephasing_rate=0.5), dict(relaxation_rate=0.3),
+                                          dict(relaxation_rate=0.2, dephasing_rate=0.3)])
     return case
 
 
